@@ -44,6 +44,7 @@ CELL_DOC = {"ADD": "A+B, carry = sum exceeds 8 bits", "ADDH": "A+B, carry = carr
             "NOR": "not(A or B), carry clear", "LSR": "A>>1, bit 0 to carry", "RR": "A>>1 with bit 0 on top, bit 0 to carry",
             "RRC": "A>>1 with carry-in on top, bit 0 to carry", "ASR": "A>>1 keeping bit 7, bit 0 to carry"}
 _CELL = None
+_TIER = "quick"
 
 
 def _alu_cell(I, vi, a, b, cin):
@@ -104,7 +105,17 @@ def _cell_job(job):
             k = {"ADD": 0, "ADDH": 0, "ADDS": 1, "ADC": cin, "ADCS": 1 - cin}[name]
             inv = name in ("ADDS", "ADCS")
             t = 256 - a - k
-            for lo, hi, over in ((0, min(t - 1, 255), 0), (max(t, 0), 255, 1)):
+            base_cells = [(0, min(t - 1, 255), 0), (max(t, 0), 255, 1)]
+            if _TIER == "thorough":
+                # finer partition: every cell cut into pieces of at most 16 values of B
+                fine = []
+                for lo, hi, over in base_cells:
+                    x = lo
+                    while x <= hi:
+                        fine.append((x, min(x + 15, hi), over))
+                        x += 16
+                base_cells = fine
+            for lo, hi, over in base_cells:
                 if lo > hi:
                     continue
                 c = over
@@ -137,14 +148,15 @@ def _cell_job(job):
             bad.append(m)
     else:
         blk = arg
-        for par in (0, 1):
-            cell = frozenset(x for x in range(16 * blk, 16 * blk + 16) if x & 1 == par)
+        subs = [(16 * blk, 16 * blk + 16)] if _TIER != "thorough" else [(16 * blk + 4 * q, 16 * blk + 4 * q + 4) for q in range(4)]
+        for par, (s_lo, s_hi) in [(par_, sub_) for par_ in (0, 1) for sub_ in subs]:
+            cell = frozenset(x for x in range(s_lo, s_hi) if x & 1 == par)
             for cin in (0, 1):
                 f = {"LSR": lambda x: x >> 1, "RR": lambda x: (x >> 1) | ((x & 1) << 7),
                      "RRC": lambda x: (x >> 1) | (cin << 7), "ASR": lambda x: (x >> 1) | (x & 0x80)}[name]
                 r = _alu_cell(I, vi, cell, U8, cin)
                 n += 1
-                m = _cmp(r, {f(x) for x in cell}, {par}, "A in %#04x..%#04x with bit0=%d, carry-in %d" % (16 * blk, 16 * blk + 15, par, cin))
+                m = _cmp(r, {f(x) for x in cell}, {par}, "A in %#04x..%#04x with bit0=%d, carry-in %d" % (s_lo, s_hi - 1, par, cin))
                 if m:
                     bad.append(m)
     return n, bad
@@ -306,8 +318,9 @@ def run(ctx):
     # cell must be: carry = the documented constant, result set = the documented sums of the cell,
     # zero/negative sets = those of that result set.  (Cells, not points: no operand pair is evaluated
     # on its own; equality of sets per cell is a necessary condition of the pointwise table.)
-    global _CELL
+    global _CELL, _TIER
     _CELL = (p, body, in_fields, out_fields, names)
+    _TIER = ctx.tier
     jobs = []
     for name in ("ADD", "ADDH", "ADDS", "ADC", "ADCS"):
         if name in names:
@@ -334,7 +347,7 @@ def run(ctx):
                "; ".join(bad[:3]) or "%d cells" % n,
                "abstract interpretation per cell: A fixed, B an interval on one side of the carry threshold (adders); "
                "A fixed, B any (NOR); A in an aligned block of 16 with fixed parity (shifts)")
-    chk.floor("operand-space cells", ncells, 5500)
+    chk.floor("operand-space cells", ncells, 5500 if ctx.tier != "thorough" else 40000)
     chk.assume("within a cell only the *set* of results is compared; a function that permutes results inside a cell "
                "would not be noticed (the dependence and pass-through clauses bound what such a function could look like)")
     chk.sample({"function": "RRC", "result depends on": ["A", "Cin"], "carry depends on": ["A"]})
